@@ -39,6 +39,7 @@ package pgdump
 import (
 	"os"
 	"path/filepath"
+	"sort"
 	"strconv"
 	"strings"
 )
@@ -150,8 +151,16 @@ func DumpDatabaseFromFiles(classData, attrData []byte, reader FileReader, opts *
 	tables := ParsePGClass(classData)
 	attrs := ParsePGAttribute(attrData, opts.PostgresVersion)
 
+	// Go map iteration order is random: visit the relations in filenode order
+	filenodes := make([]uint32, 0, len(tables))
+	for filenode := range tables {
+		filenodes = append(filenodes, filenode)
+	}
+	sort.Slice(filenodes, func(i, j int) bool { return filenodes[i] < filenodes[j] })
+
 	result := &DatabaseDump{}
-	for filenode, info := range tables {
+	for _, filenode := range filenodes {
+		info := tables[filenode]
 		if info.Kind != "r" && info.Kind != "" {
 			continue
 		}
